@@ -734,6 +734,7 @@ class C14(SimSpec):
         scen["cancel"] = rng.choice([0.005, 0.02, 0.05, 0.2])
         scen["cancel_complete"] = rng.random() < 0.8
         scen["cancel_host"] = rng.choice(["login", "login2"])
+        scen["scancel_gone_fails"] = rng.random() < 0.5  # scancel of a batch that has already left the scheduler's books fails (exit 1)
         if i % 2 == 0:
             scen["max_nodes"] = rng.choice([1, 1, 2])
             for g in scen["groups"]:
@@ -771,6 +772,7 @@ class C14(SimSpec):
         c["canceled_runs_not_reaching_completion"] = sum(1 for r in ok if r.get("canceled") and not r.get("complete"))
         c["nodes_killed_by_scancel"] = total(ok, "killed_nodes")
         c["resubmit_jobs_commands_on_a_canceled_submission"] = total(ok, "resub_after_cancel")
+        c["scancel_calls_that_failed_because_the_batch_was_already_gone"] = total(ok, "scancel_failures")
         return c
 
     def floors(self, cov):
